@@ -328,6 +328,9 @@ class Interp:
             if '/ttsa/' in fname and not fname.endswith('interp.py'):
                 import traceback
                 return AnalysisError(f'internal error in the abstract domain ({type(e).__name__}: {e}) at {fname}:{last.tb_lineno} while analysing {self.where()}')
+        if isinstance(e, TypeError) and 'unsupported operand type' in str(e) and any(n_ in str(e) for n_ in ('IntVec', 'Arr', 'Size', 'SymIdx', 'SymOff', 'Instance', 'UnknownBool', 'NpIntSize', 'SymArray')):
+            # Python could not combine an abstract value of the analysis with its operand: an operation the domain has no transfer function for
+            return AnalysisError(f'an operation on abstract values has no model ({e}) at {self.where()}')
         r = Raised(type(e).__name__, str(e), node or self.cur_node(), self.cur_fn())
         r.where = self.where()
         r.path = self.call_path()
